@@ -318,7 +318,9 @@ def gen_real_cases(tier, r):
     return cases
 
 
-def run_real(case, td):
+def run_real(case, td, shared=None):
+    """shared: a dump directory that already served other queries with the same path id (as with
+    --dump-smt-directory); a case that carries "same_dir_before" re-creates that history first"""
     from pathlib import Path as P
     from types import SimpleNamespace as NS
 
@@ -328,6 +330,10 @@ def run_real(case, td):
     from halmos.solvers import SOLVERS
     from halmos.utils import create_solver
 
+    if shared is None and case.get("same_dir_before"):
+        shared = tempfile.mkdtemp(dir=td)
+        for prev in case["same_dir_before"]:
+            run_real(prev, td, shared)
     w = case.get("w", 256)
     x = z3.BitVec(f"p_x_uint{w}_00", w)
     y = z3.BitVec(f"p_y_uint{w}_01", w)
@@ -338,7 +344,13 @@ def run_real(case, td):
         path.append(x == case["x0"])
     if case["pin"] in ("y", "both"):
         path.append(y == case["y0"])
-    d = tempfile.mkdtemp(dir=td)
+    d = shared or tempfile.mkdtemp(dir=td)
+    f1, f2 = P(d) / "1.smt2.out", P(d) / "1.refined.smt2.out"
+
+    def stamp(pth):
+        return (pth.stat().st_mtime_ns, pth.read_text()) if pth.exists() else None
+
+    b1, b2 = stamp(f1), stamp(f2)
     cmd = [Z3] if case["solver"] == "z3" else [YICES] + list(SOLVERS["yices"].arguments)
     args = NS(verbose=0, cache_solver=case["cache"], resolved_solver_command=cmd, solver_timeout_assertion=25)
     sctx = S.SolvingContext(dump_dir=P(d))
@@ -348,15 +360,17 @@ def run_real(case, td):
         sctx.executor.shutdown(wait=True)
     except Exception:  # noqa: BLE001  (shutdown re-raises a solver timeout; not this property)
         pass
-    o1 = (P(d) / "1.smt2.out").read_text() if (P(d) / "1.smt2.out").exists() else None
-    o2 = (P(d) / "1.refined.smt2.out").read_text() if (P(d) / "1.refined.smt2.out").exists() else None
+    a1, a2 = stamp(f1), stamp(f2)
+    o1 = a1[1] if (a1 is not None and a1 != b1) else None      # written by this solve
+    o2 = a2[1] if (a2 is not None and a2 != b2) else None
     res = res_code(out.result)
     obs = {"result": res, "valid": (1 if out.model.is_valid else 0) if out.model is not None else 0,
            "source": 0 if out.model is None else (o1 is not None) + (o2 is not None),
            "runs": (o1 is not None) + (o2 is not None), "out1": o1, "out2": o2,
            "model": None if out.model is None else {k: v.value for k, v in out.model.model.items()},
            "changes": ctx.refine().query.smtlib != ctx.query.smtlib}
-    shutil.rmtree(d, ignore_errors=True)
+    if shared is None:
+        shutil.rmtree(d, ignore_errors=True)
     return obs
 
 
@@ -381,6 +395,7 @@ if [ -f "$D/ans/$k.sleep" ]; then sleep 4; fi
 if [ -f "$D/ans/$k.out" ]; then
   cat "$D/ans/$k.out"
   if [ -f "$D/ans/$k.err" ]; then cat "$D/ans/$k.err" >&2; fi
+  if [ -f "$D/ans/$k.rc" ]; then exit 1; fi
 else
   echo '(error "no answer")'
 fi
@@ -502,6 +517,8 @@ def run_session(sess, td):
         (base / "ans" / f"{key}.out").write_text(o)
         if e:
             (base / "ans" / f"{key}.err").write_text(e)
+        if kind == "garbage":   # solvers exit with a non-zero status on an error
+            (base / "ans" / f"{key}.rc").write_text("1")
 
     for f in sess["pre"]:
         (d / f["name"]).write_text(f["content"])
@@ -617,6 +634,12 @@ def run(rep, tier):
     m = Model(exe) if exe is not None else None
     r = common.rng(PID)
     nfail = [0]
+    # development aid: VERIF_C04_ONLY=fs,l3 restricts the correspondence run to some families
+    # (the evidence then says so); the obligations are always checked
+    only = [x for x in os.environ.get("VERIF_C04_ONLY", "").split(",") if x]
+
+    def fam_on(fam):
+        return not only or fam in only
 
     def fail(kind, what, case, **kw):
         nfail[0] += 1
@@ -625,8 +648,8 @@ def run(rep, tier):
 
     phase("build")
     # ---- X-const
-    cases = const_cases(tier, r)
-    mres = m.parallel_batch([("c04_parse_const", txt(s)) for s, _ in cases]) if m else None
+    cases = const_cases(tier, r) if fam_on("const") else []
+    mres = (m.parallel_batch([("c04_parse_const", txt(s)) for s, _ in cases]) if cases else []) if m else None
     for i, (s, want) in enumerate(cases):
         got = real_parse_const(s)
         form = "malformed" if want is None else ("#b" if s.startswith("#b") else "#x" if s.startswith("#x") else "bv-token" if s.startswith("bv") else "(_ bvN W)")
@@ -642,7 +665,7 @@ def run(rep, tier):
 
     phase("const")
     # ---- X-model
-    outs = model_outputs(tier, r)
+    outs = model_outputs(tier, r) if fam_on("model") else []
     calls, meta = [], []
     for k, o in enumerate(outs):
         got = real_parse_model(o["text"])
@@ -679,6 +702,8 @@ def run(rep, tier):
     if tier != "quick":
         pcases += [(w, r.randrange(1 << w)) for w in (1, 3, 7, 8, 9, 64, 160, 255, 256, 257, 264, 512) for _ in range(8)]
     pcalls, pmeta = [], []
+    if not fam_on("print"):
+        pcases = []
     for sname, cmd, syn in solver_cmds:
         for w, n in pcases:
             vt, stdout = solver_value_text(cmd, w, n)
@@ -713,10 +738,12 @@ def run(rep, tier):
                 scripted.append({"out1": o1, "out2": o2, "core_hit": core_hit, "is_refined": is_refined, "changes": changes, "cache": core_hit or r.random() < 0.3})
     calls = []
     obs_s = []
+    if not fam_on("scripted"):
+        scripted = []
     for c in scripted:
         obs_s.append(run_scripted(c, td))
         calls.append(("c04_e2e", [int(c["core_hit"]), int(c["is_refined"]), int(c["changes"]), len(CANNED[c["out1"]])] + txt(CANNED[c["out1"]]) + txt(CANNED[c["out2"]])))
-    mres = m.parallel_batch(calls) if m is not None else None
+    mres = (m.parallel_batch(calls) if calls else []) if m is not None else None
     for i, (c, o) in enumerate(zip(scripted, obs_s)):
         rep.count("scripted_first_answer", c["out1"])
         rep.case({"scripted": c}, nontrivial=c["out1"].startswith("sat"))
@@ -738,7 +765,7 @@ def run(rep, tier):
 
     phase("scripted")
     # ---- X-fs: sequences of queries solved in one dump directory
-    sessions = gen_sessions(tier, r)
+    sessions = gen_sessions(tier, r) if fam_on("fs") else []
     fcalls, fmeta = [], []
     for si, sess in enumerate(sessions):
         obs = run_session(sess, td)
@@ -791,7 +818,7 @@ def run(rep, tier):
     # ---- X-l3: python -m halmos --dump-smt-directory, runs sharing the directory, overloaded tests
     from harness import c04_l3
 
-    for scn in c04_l3.gen_scenarios(tier, r):
+    for scn in (c04_l3.gen_scenarios(tier, r) if fam_on("l3") else []):
         try:
             lobs = c04_l3.run_scenario(scn)
         except Exception as e:  # noqa: BLE001
@@ -816,11 +843,18 @@ def run(rep, tier):
 
     phase("l3")
     # ---- X-e2e with the real solvers
-    rcases = gen_real_cases(tier, r)
+    rcases = gen_real_cases(tier, r) if fam_on("real") else []
     calls, robs = [], []
-    for c in rcases:
-        o = run_real(c, td)
+    group, rdir = [], None
+    for idx, c in enumerate(rcases):
+        # three consecutive cases share one dump directory and the path id (a used directory)
+        if idx % 3 == 0:
+            group, rdir = [], tempfile.mkdtemp(dir=td)
+        o = run_real(c, td, shared=rdir)
         robs.append(o)
+        if group:
+            c = rcases[idx] = dict(c, same_dir_before=list(group))
+        group.append({k: v for k, v in c.items() if k != "same_dir_before"})
         rep.count("real_e2e", f"{c['op']}{c.get('w', 256)}/{c['solver']}" + ("" if c["r"] == exact(c["op"], c["x0"], c["y0"], c.get("w", 256)) else "/no-evm-model"))
         rep.case({"real": c}, nontrivial=True)
         w = c.get("w", 256)
@@ -867,7 +901,7 @@ def run(rep, tier):
         checker_cmd="make -C coq Props/C04.vo (coq_makefile, coqc 8.16.1) after regenerating coq/Gen/GenRefine.v from /repo/src/halmos/solve.py",
         trusted_base=common.TRUSTED_BASE_COMMON + ["the z3 and yices-smt2 binaries in /venv/bin as truthful solvers in the end-to-end part of the correspondence run"],
         assumptions=ASSUMPTIONS,
-        partial=PARTIAL,
+        partial=PARTIAL + (f"; THIS RUN WAS RESTRICTED to the families {only} (VERIF_C04_ONLY)" if only else ""),
         rule="five case families: (1) const: value texts in the syntaxes #b / #x (both cases) / (_ bvN W) / bvN for boundary and random values up to 512 bits plus malformed texts; non-trivial = well-formed value > 9; (2) model_output: generated get-model outputs with 1-5 define-fun entries (halmos_/p_/other names, |quoted|, wrapped lines, three value syntaxes, unparsable values); (3) print: real z3 / yices-smt2 (halmos' arguments, and --smt2-model-format alone) printing the model of x = n at widths 8/160/256/264; (4) scripted: every combination of canned first/refined solver answers x unsat-core hit x already-refined x refinement-changes-text through the real solve_end_to_end; non-trivial = first answer is sat; (5) real: Path queries f_evm_op(x, y) = r with x and/or y pinned, through the real solve_end_to_end with real z3 / yices (refinement needed), incl. exp (must stay potentially invalid) and unsatisfiable-after-refinement ones; (6) fs: sessions of 2-5 queries solved in one dump directory pre-populated (60%) with files of an earlier run, path ids drawn from a small set so that names collide, scripted solver keyed by the content it is handed, first / refined answers from {valid, abstract, unsat, unknown, garbage, timeout}, unsat-core hits, already-refined contexts; non-trivial = a file named like the current query's was already there; (7) l3: python -m halmos --dump-smt-directory on fabricated contracts with overloaded tests (identity / XOR / ADD conditions, one failing input each), two runs sharing the directory; distinct by hash of the case",
     )
 
